@@ -1126,3 +1126,174 @@ def rf173(run):
         run.violation(rule, g, 'position table used as a ring', 'reduce_decode_get indexes the position table with `%s`: positions of symbols further '
                       'back than the ring are overwritten while the encoder can still refer to them' % F.src(wraps[0]['c'][1])[:50], line=wraps[0]['l'])
     return 3
+
+
+# ---------------------------------------------------------------------------------------------
+# RF183: bytes staged by the encoder reach the writer before anything written behind them
+# ---------------------------------------------------------------------------------------------
+
+def rf183(run):
+    rule = 'RF183'
+    run.rule(rule, 'mir-reduce.h encoder, typestate over the call tree of the three API functions.  A *staging buffer* is a byte array of the '
+                   'encoder state that some function hands to the writer callback (its flusher) and others fill by element stores / memcpy '
+                   '(today: `curr_symb`, the pending literal run).  State per buffer: empty / maybe non-empty; an append makes it non-empty, '
+                   'the flusher or a reset of its length field empties it.  Every other call of the writer callback (a *direct* write — tag, '
+                   'number, hash, or a long run passed through) happens with every staging buffer empty, except inside that buffer\'s own '
+                   'flusher (header of the run); and reduce_encode_finish returns with all buffers empty (the states between API calls are '
+                   'computed as a fixpoint over start · put*).  Otherwise bytes written later overtake the staged ones and the stream '
+                   'does not decode')
+    tu = run.tu('mir')
+    funcs = {g.name: g for g in tu.func_list if g.body is not None and g.file.endswith('mir-reduce.h')}
+    # staging buffers: uint8_t arrays of the encoder state
+    bufs = []
+    for f_ in tu.records.get('_reduce_encode_data', {}).get('fields', []):
+        ts = tu.type(f_['t']).s
+        if ts.startswith('uint8_t[') or ts.startswith('unsigned char['):
+            bufs.append(f_['n'])
+    if not bufs:
+        raise F.AnalysisBroken('mir-reduce.h: no byte array in the encoder state')
+
+    def is_writer_call(x):
+        if x['k'] != 'CallExpr':
+            return False
+        c = x.get('callee')
+        if c == 'writer':
+            return True
+        if c is None:
+            return 'writer' in F.src(F.strip(x['c'][0]))
+        return False
+
+    def mentions(node, b):
+        return any(y['k'] == 'MemberExpr' and y['n'] == b for y in F.walk(node))
+    flushers = {b: set() for b in bufs}
+    lenfields = {b: set() for b in bufs}
+    for g in funcs.values():
+        for x in g.walk():
+            if is_writer_call(x):
+                a0 = F.call_args(x)[0]
+                for b in bufs:
+                    if mentions(a0, b):
+                        flushers[b].add(g.name)
+            if x['k'] == 'ArraySubscriptExpr':
+                for b in bufs:
+                    if mentions(x['c'][0], b):
+                        for y in F.walk(x['c'][1]):
+                            if y['k'] == 'MemberExpr':
+                                lenfields[b].add(y['n'])
+    bufs = [b for b in bufs if flushers[b]]
+    run.control(rule, 'a staging buffer with a flusher found (curr_symb)', bool(bufs))
+    viol = []
+    memo = {}
+
+    def transfer(g, state_in, flushing):
+        """state: dict buffer -> frozenset of {'E','N'}; returns the state at the exits"""
+        key = (g.name, tuple(sorted((b, tuple(sorted(s))) for b, s in state_in.items())), tuple(sorted(flushing)))
+        if key in memo:
+            return memo[key]
+        memo[key] = state_in       # recursion guard (the call graph has no cycles)
+        cfg = g.cfg
+        fl = set(flushing) | {b for b in bufs if g.name in flushers[b]}
+        inn = {cfg.entry: {b: set(s) for b, s in state_in.items()}}
+        work = [cfg.entry]
+        out_exit = {b: set() for b in bufs}
+        seen_out = {}
+        while work:
+            bid = work.pop()
+            st = {b: set(s) for b, s in inn[bid].items()}
+            done = set()
+            for el in cfg.blocks[bid].elems:
+                # inner nodes first (arguments are evaluated before the call)
+                nodes = list(F.walk(el))
+                for x in reversed(nodes):
+                    if x['i'] in done:
+                        continue
+                    if x['k'] == 'CallExpr':
+                        done.add(x['i'])
+                        if is_writer_call(x):
+                            a0 = F.call_args(x)[0]
+                            hit = [b for b in bufs if mentions(a0, b)]
+                            for b in bufs:
+                                if b in hit:
+                                    continue
+                                if 'N' in st[b] and b not in fl:
+                                    viol.append((g, x['l'], b))
+                            continue
+                        c = x.get('callee')
+                        if c in funcs and c != g.name:
+                            emptied = [b for b in bufs if c in flushers[b]]
+                            res = transfer(funcs[c], {b: frozenset(s) for b, s in st.items()}, fl)
+                            for b in bufs:
+                                st[b] = {'E'} if b in emptied else set(res[b])
+                        elif c in ('memcpy', 'memmove'):
+                            for b in bufs:
+                                if mentions(F.call_args(x)[0], b):
+                                    st[b] = {'N'}
+                    elif x['k'] in ('BinaryOperator', 'CompoundAssignOperator') and x['op'] in ('=', '+=', '|='):
+                        done.add(x['i'])
+                        l = F.strip(x['c'][0])
+                        for b in bufs:
+                            if l['k'] == 'ArraySubscriptExpr' and mentions(l['c'][0], b):
+                                st[b] = {'N'}
+                            if x['op'] == '=' and l['k'] == 'MemberExpr' and l['n'] in lenfields[b]:
+                                r = F.strip(x['c'][1])
+                                rv = F.const_value(r)
+                                if rv == 0 or (r['k'] == 'BinaryOperator' and r['op'] == '=' and F.const_value(F.strip(r['c'][1])) == 0):
+                                    st[b] = {'E'}
+            succs = cfg.live_succs(bid)
+            if not succs or bid == cfg.exit:
+                for b in bufs:
+                    out_exit[b] |= st[b]
+            for s_ in succs:
+                if s_ is None:
+                    continue
+                old = inn.get(s_)
+                if old is None:
+                    inn[s_] = {b: set(v) for b, v in st.items()}
+                    work.append(s_)
+                else:
+                    ch = False
+                    for b in bufs:
+                        if not st[b] <= old[b]:
+                            old[b] |= st[b]
+                            ch = True
+                    if ch:
+                        work.append(s_)
+        if cfg.exit in inn:
+            for b in bufs:
+                out_exit[b] |= inn[cfg.exit][b]
+        res = {b: frozenset(s or {'E'}) for b, s in out_exit.items()}
+        memo[key] = res
+        return res
+    n = 0
+    for api in ('reduce_encode_start', 'reduce_encode_put', 'reduce_encode_finish'):
+        if api not in funcs:
+            raise F.AnalysisBroken('%s not found' % api)
+        run.functions_analysed.add(('mir', api))
+    # states between API calls: after start, and after any number of puts
+    S = dict(transfer(funcs['reduce_encode_start'], {b: frozenset({'E'}) for b in bufs}, frozenset()))
+    for _ in range(4):
+        r = transfer(funcs['reduce_encode_put'], S, frozenset())
+        S2 = {b: frozenset(S[b] | r[b]) for b in bufs}
+        if S2 == S:
+            break
+        S = S2
+    res = transfer(funcs['reduce_encode_finish'], S, frozenset())
+    for b in bufs:
+        ok = res[b] == frozenset({'E'})
+        n += 1
+        run.ob(rule, ('finish', b), ok, {'buffer': b, 'state between API calls': sorted(S[b]), 'state when reduce_encode_finish returns': sorted(res[b])})
+        if not ok:
+            run.violation(rule, funcs['reduce_encode_finish'], 'staged bytes left at the end', 'reduce_encode_finish can return with bytes still staged in '
+                          '`%s`: the end of the stream is never written' % b, line=funcs['reduce_encode_finish'].line)
+    seen = set()
+    for g, l, b in viol:
+        if (g.name, l, b) in seen:
+            continue
+        seen.add((g.name, l, b))
+        run.functions_analysed.add(('mir', g.name))
+        run.ob(rule, (g.name, l, b), False, {'site': '%s:%d %s' % (g.relfile(), l, g.name), 'buffer that may hold staged bytes': b})
+        run.violation(rule, g, 'direct write overtakes staged bytes', '%s calls the writer callback directly (line %d) on a path where `%s` may still '
+                      'hold staged bytes (reached from the API functions through the call tree): the bytes written here come out in front of '
+                      'the staged ones — for a literal run in front of its own tag and length — and the stream no longer decodes' % (g.name, l, b), line=l)
+    run.ob(rule, ('summary',), not viol, {'staging buffers': bufs, 'flushers': {b: sorted(flushers[b]) for b in bufs}, 'direct writes with staged bytes': len(seen)})
+    return n
